@@ -28,7 +28,9 @@ pub enum MVal {
     /// days since 1970-01-01
     Date(i64),
     /// wall-clock seconds of day shown in the zone (name, offset minutes)
-    Time { wall: i64, zone: String, off: i32 },
+    /// `day`: the UTC day the time was anchored on when it was read (i64::MIN = not known any more, e.g. after
+    /// adding a duration); only times anchored on the same day have a defined difference
+    Time { wall: i64, zone: String, off: i32, day: i64 },
     DateTime { utc: i64, zone: String, off: i32 },
     Unit(f64, String, usize),
     /// a unix timestamp (printed with every digit)
@@ -170,7 +172,7 @@ fn lit(l: &Lit, c: &Ctx) -> R {
         }
         Lit::Time(t) => {
             let (zone, off) = match &t.zone { Some((z, o)) => (z.to_uppercase(), *o), None => c.zone.clone() };
-            R::V(MVal::Time { wall: t.wall_secs(), zone, off })
+            R::V(MVal::Time { wall: t.wall_secs(), zone, off, day: c.today })
         }
         Lit::Unit { n, family, index, .. } => R::V(MVal::Unit(n.value(), family.clone(), *index)),
     }
@@ -201,7 +203,7 @@ pub fn eval(e: &Expr, c: &Ctx) -> R {
             other => other,
         },
         Expr::ToZone { e, zone, off, .. } => match eval(e, c) {
-            R::V(MVal::Time { wall, off: o0, .. }) => R::V(MVal::Time { wall: rem(wall - o0 as i64 * 60 + *off as i64 * 60), zone: zone.to_uppercase(), off: *off }),
+            R::V(MVal::Time { wall, off: o0, day, .. }) => R::V(MVal::Time { wall: rem(wall - o0 as i64 * 60 + *off as i64 * 60), zone: zone.to_uppercase(), off: *off, day: if wall - o0 as i64 * 60 + *off as i64 * 60 == rem(wall - o0 as i64 * 60 + *off as i64 * 60) { day } else { i64::MIN } }),
             R::V(_) => R::Unjudged("to-zone-of-non-time"),
             other => other,
         },
@@ -216,7 +218,7 @@ pub fn eval(e: &Expr, c: &Ctx) -> R {
                 (MVal::Date(p), MVal::Date(q)) => R::V(MVal::Dur { secs: (p - q).abs() * 86400, cal: None }),
                 // a clock time held in a variable was anchored on the day it was bound; what its difference to a
                 // time of another day is, no statement says
-                (MVal::Time { .. }, MVal::Time { .. }) if !matches!(&**a, Expr::Lit(_)) || !matches!(&**b, Expr::Lit(_)) => R::Unjudged("difference-of-time-variables"),
+                (MVal::Time { day: d1, .. }, MVal::Time { day: d2, .. }) if d1 != d2 || d1 == i64::MIN => R::Unjudged("difference-of-times-anchored-on-different-days"),
                 (MVal::Time { wall: p, off: o1, .. }, MVal::Time { wall: q, off: o2, .. }) if o1 == o2 => R::V(MVal::Dur { secs: (p - q).abs(), cal: None }),
                 (MVal::Time { .. }, MVal::Time { .. }) => R::Unjudged("time-difference-across-zones"),
                 _ => R::Unjudged("between-of-these-kinds"),
@@ -286,7 +288,7 @@ fn bin(a: MVal, op: char, b: MVal, c: &Ctx) -> R {
                 None => R::Unjudged("date-plus-mixed-duration"),
             }
         }
-        (Time { wall, zone, off }, Dur { secs, .. }) => match op { '+' => R::V(Time { wall: rem(wall + secs), zone, off }), '-' => R::V(Time { wall: rem(wall - secs), zone, off }), _ => R::Unjudged("time-op") },
+        (Time { wall, zone, off, .. }, Dur { secs, .. }) => match op { '+' => R::V(Time { wall: rem(wall + secs), zone, off, day: i64::MIN }), '-' => R::V(Time { wall: rem(wall - secs), zone, off, day: i64::MIN }), _ => R::Unjudged("time-op") },
         (Unit(x, f, i), Num(k)) => match op { '*' => R::V(Unit(x * k, f, i)), '/' => R::V(Unit(div(x, k), f, i)), _ => R::Unjudged("unit-plus-number") },
         (Unit(x, f, i), Unit(y, g, j)) => {
             if f == g && i == j { match op { '+' => R::V(Unit(x + y, f, i)), '-' => R::V(Unit(x - y, f, i)), '/' => R::V(Num(div(x, y))), _ => R::Unjudged("unit-times-unit") } } else { R::Unjudged("unit-conversion") }
@@ -304,7 +306,7 @@ pub fn agrees(exp: &MVal, obs: &Val, out: &str) -> bool {
         (MVal::Money(a, c), Val::Money { v, code }) => close(*a, v.0) && c.eq_ignore_ascii_case(code),
         (MVal::Dur { secs, .. }, Val::Dur { secs: s, nanos }) => secs == s && *nanos == 0,
         (MVal::Date(d), Val::Date { days, .. }) => d == days,
-        (MVal::Time { wall, zone, off }, Val::Time { utc, zone: z, off: o, .. }) => {
+        (MVal::Time { wall, zone, off, .. }, Val::Time { utc, zone: z, off: o, .. }) => {
             let w = rem(*wall);
             rem(*utc + *o as i64 * 60) == w && off == o && zone.eq_ignore_ascii_case(z)
                 && out.eq_ignore_ascii_case(&format!("{:02}:{:02}:{:02} {}", w / 3600, (w / 60) % 60, w % 60, zone))
